@@ -7,7 +7,7 @@
    comb / fuel / the script [evs] quantify over every reader behaviour (arbitrary
    chunking, 0-byte reads, an error at any offset, data together with EOF/error).
    [matches_desc H dg sz bs] = length bs = sz /\ dg = alg:H alg bs /\ dg is a valid digest. *)
-From Oras Require Import Base.Prelude Generated.GC05 Model.Verify Proofs.Verify Proofs.VerifyComplete Proofs.VerifyProxy Proofs.VerifyFuel.
+From Oras Require Import Base.Prelude Generated.GC05 Model.Verify Proofs.Verify Proofs.VerifyComplete Proofs.VerifyProxy Proofs.VerifyFuel Proofs.VerifyConc.
 
 (* ReadAll hands back data only when length and digest match and the reader held
    nothing else *)
@@ -313,6 +313,23 @@ Proof.
   - intros i n st' t w Es Ei Ep. exact (cstep_success H st i n st' t Iv Es Ei (ex_intro _ w Ep)).
 Qed.
 Print Assumptions C05_concurrent_same_digest.
+
+(* the outcome set the implementation's concurrent runs are compared with (exhaustive
+   interleaving of the micro-steps, [explore]) consists of runs of the transition
+   system only, so the invariant above holds for each of those outcomes *)
+Theorem C05_concurrent_explored :
+  forall (H : str -> str -> str) fuel big blobs ts st',
+    oci_reach H blobs -> Forall (fun t => t_pc t = PStart) ts ->
+    In st' (explore H fuel big (mkC blobs ts)) ->
+    (exists sched, crun H (mkC blobs ts) sched = Some st') /\
+    (forall dg bs, oci_get (c_blobs st') dg = Some bs ->
+                   dg = digest_of H (alg_of dg) bs /\ valid_digest dg = true).
+Proof.
+  intros H fuel big blobs ts st' R F I1. split.
+  - exact (explore_reachable H fuel big _ _ I1).
+  - exact (explore_invariant H fuel big blobs ts st' R F I1).
+Qed.
+Print Assumptions C05_concurrent_explored.
 
 (* the behaviour before the repair (NewVerifyReader accepted a negative Size): the
    CopyBuffer path stored the empty blob under a descriptor of size -1 *)
